@@ -489,6 +489,10 @@ def numgrad_cases(rng, tier, vs):
     """NumericalGradient(f, method, step) on 1-d tensor spaces (as the code computes it, weights ignored)"""
     import odl
     cs = C.CaseSet('numgrad', ['Base.Vec', 'C09.Model', 'C09.Corr'], 'check4', 'case4')
+    # variant switch of the open finding, measured on its replay input: [4.] = current code, [2.] = repaired
+    sp2 = odl.rn(1, weighting=2.0)
+    probe = odl.solvers.NumericalGradient(odl.solvers.L2NormSquared(sp2), method='central', step=1.0)([1.0])
+    riesz = C.b(abs(float(probe[0]) - 2.0) < 1e-9)
     for kind in ('rn', 'rn1', 'rn_cw', 'rn_cw2', 'rn_aw', 'discr', 'discr_big'):
         for m, mc in (('forward', 'NGForward'), ('backward', 'NGBackward'), ('central', 'NGCentral')):
             for _ in range(2 if tier == 'quick' else 10):
@@ -504,7 +508,7 @@ def numgrad_cases(rng, tier, vs):
                     continue
                 if not all(math.isfinite(t) for t in out):
                     continue
-                term = '(mkCase4 %s %s %s %s %s %s)' % (S.wq, node.coq, mc, C.q(h), C.qs(x), C.qs(out))
+                term = '(mkCase4 %s %s %s %s %s %s %s)' % (riesz, S.wq, node.coq, mc, C.q(h), C.qs(x), C.qs(out))
                 cs.add(term, {'space': S.kind, 'method': m, 'step': h, 'tree': node.desc, 'x': x},
                        (S.kind, m, h, repr(node.desc), tuple(x)))
     return cs
